@@ -76,6 +76,31 @@ class Inst(SpecObj):
         return hash(("inst", self._cls))
 
 
+class Ref:
+    """a named heap object: its attributes live in env["@heap"] under (name, attr), so a store through one local is
+    seen through every other local that holds the same Ref (real aliasing, unlike the path-keyed valuation)"""
+
+    def __init__(self, name, cls=None):
+        self.name = name
+        self._cls = cls
+
+    def __eq__(self, other):
+        return isinstance(other, Ref) and other.name == self.name
+
+    def __hash__(self):
+        return hash(("ref", self.name))
+
+    def __repr__(self):
+        return "Ref(%s)" % self.name
+
+
+HEAP = "@heap"
+
+
+def heap_get(env, ref, attr):
+    return env.get(HEAP, {}).get((ref.name, attr), UNKNOWN)
+
+
 class ByteBuf:
     """immutable stand-in for an io.BytesIO used append-only (write at the end, getvalue, tell = fill level)"""
 
@@ -201,6 +226,10 @@ class Explorer:
         sub = getattr(self, "_subst", None)
         if sub and id(e) in sub:
             return sub[id(e)]
+        if HEAP in env and isinstance(e, ast.Attribute):
+            b = self.ev(e.value, env)
+            if isinstance(b, Ref):
+                return heap_get(env, b, e.attr)
         k = self.key_of(e)
         if k is not None and k in env:
             return env[k]
@@ -662,6 +691,38 @@ class Explorer:
 
     def _apply_plain(self, node, env):
         st = node.ast
+        if HEAP in env and isinstance(st, ast.Assign) and len(st.targets) == 1 and isinstance(st.value, ast.Call) and isinstance(st.value.func, ast.Name) \
+                and st.value.func.id == "next" and len(st.value.args) == 1:
+            # `x = next(it)` on a heap iterator (attribute `queue`): the head is taken, StopIteration when exhausted
+            it = self.ev(st.value.args[0], env)
+            tk = self.key_of(st.targets[0])
+            if isinstance(it, Ref) and isinstance(heap_get(env, it, "queue"), tuple) and tk is not None:
+                q = heap_get(env, it, "queue")
+                new = dict(env)
+                if not q:
+                    new["__raise__"] = "StopIteration"
+                    return new
+                h = dict(env[HEAP])
+                h[(it.name, "queue")] = q[1:]
+                new[HEAP] = h
+                new[tk] = q[0]
+                return new
+        if HEAP in env and isinstance(st, ast.Assign) and any(isinstance(t, ast.Attribute) for t in st.targets):
+            done = []
+            new = env
+            for t in st.targets:
+                if isinstance(t, ast.Attribute):
+                    b = self.ev(t.value, env)
+                    if isinstance(b, Ref):
+                        h = dict(new[HEAP])
+                        h[(b.name, t.attr)] = self.ev(st.value, env)
+                        new = dict(new)
+                        new[HEAP] = h
+                        done.append(t)
+            if done and len(done) == len(st.targets):
+                return new
+            if done:
+                env = new
         if isinstance(st, ast.Assign) and len(st.targets) == 1 and isinstance(st.targets[0], ast.Name) and isinstance(st.value, ast.Call) \
                 and isinstance(st.value.func, ast.Attribute) and st.value.func.attr in ("pop", "popleft") and not st.value.keywords:
             # `x = seq.popleft()` / `seq.pop()` / `seq.pop(0)` on a tracked sequence: the element is taken out
@@ -1007,6 +1068,6 @@ def _freeze(env):
         try:
             hash(v)
         except TypeError:
-            v = repr(v)
+            v = repr(sorted(v.items(), key=repr)) if isinstance(v, dict) else repr(v)
         items.append((k, "U" if v is UNKNOWN else v))
     return tuple(items)
